@@ -41,6 +41,8 @@ def run(chk):
     CIPH = {"AES": "AES", "AESGCM": "AES", "AESCCM": "AES", "Camellia": "CAMELLIA", "TripleDES": "3DES", "IDEA": "IDEA", "ARC4": "RC4",
             "ChaCha20Poly1305": "CHACHA20", "ChaCha20": "CHACHA20"}
     HASH = {"SHA1": "SHA", "MD5": "MD5", "SHA256": "SHA256", "SHA384": "SHA384"}
+    import logging
+    logging.disable(logging.ERROR)          # "not supported" reports of the resolver: expected here by the ten-thousands
     accepted = 0
     for code in range(65536):
         cid = code.to_bytes(2, "big")
@@ -80,6 +82,46 @@ def run(chk):
                           dict(code=code, name=name, got=str(got), want=str(want)))
         if len(chk.samples) < 4 and code % 37 == 0:
             chk.sample(dict(code=f"{code:04X}", name=name, denotation=d))
+    # history independence (spec/Resolver.tla): every query sequence of length <= 4 over 2 supported + 2 unsupported classes, each
+    # class mapped to concrete code points (several draws); every answer must equal the answer of the one-pass enumeration above
+    import random
+    rng = random.Random(chk.seed)
+    quick = chk.tier == "quick"
+    r = tlc.run("Resolver", dict(Sup='{"s1","s2"}', Unsup='{"u1","u2"}', MaxLen="4", EmitOn="TRUE"),
+                invariants=["HistoryIndependent", "UnsupportedNeverGuessed", "Emit"], workers=1, timeout=300)
+    chk.tlc("Resolver: query histories", r)
+
+    def norm(res):
+        if res is None:
+            return None
+        return repr(sorted((k, getattr(v, "__name__", None) or repr(tuple(getattr(x, "__name__", x) for x in v)) if isinstance(v, tuple) else
+                            getattr(v, "__name__", repr(v))) for k, v in res.items()))
+    import logging
+    logging.disable(logging.ERROR)          # "not supported" reports of the resolver: expected here by the ten-thousands
+    single = {}
+    sup_codes, unsup_reg, unreg = [], [], []
+    for code in range(65536):
+        cid = code.to_bytes(2, "big")
+        single[code] = norm(split_cipher_suite(cid))
+        (sup_codes if single[code] is not None else unsup_reg if code in reg else unreg).append(code)
+    # the one-pass enumeration itself must be reproducible (second pass = same answers)
+    seqs = [e["q"] for e in r.printed]
+    nq = 0
+    for q in seqs:
+        for _ in range(3 if quick else 40):
+            m = {"s1": rng.choice(sup_codes), "s2": rng.choice(sup_codes), "u1": rng.choice(unsup_reg or unreg), "u2": rng.choice(unreg)}
+            for i, cl in enumerate(q):
+                code = m[cl]
+                got = norm(split_cipher_suite(code.to_bytes(2, "big")))
+                nq += 1
+                if got != single[code]:
+                    chk.violation(f"code point {code:04X} asked after {[format(m[x], '04X') for x in q[:i]]} resolves to {got}; asked on its own it resolves to "
+                                  f"{single[code]}: the answer depends on the query history", dict(queries=[m[x] for x in q], index=i))
+                    break
+    logging.disable(logging.NOTSET)
+    chk.evaluations += nq
+    chk.extra["history_sequences"] = len(seqs)
+    chk.extra["history_queries"] = nq
     chk.extra["accepted_code_points"] = accepted
     chk.extra["registry_entries"] = len(reg)
     chk.exhaustive = True
